@@ -60,7 +60,7 @@ type avUnknown struct{ why string }
 // avAddr: address of a local allocation (with a field/element path) or of an abstract location
 type avAddr struct {
 	alloc *ssa.Alloc
-	path  []int // field indices into the local struct
+	path  []int  // field indices into the local struct
 	ref   *avRef // or: abstract location
 	idx   any    // element index for slices (avIndex / avConst) when ref is a sequence
 }
@@ -79,18 +79,19 @@ type outOfFragment struct{ why string }
 type atomKind int
 
 const (
-	akOrder atomKind = iota // int/string term: positions on the pool line + ranks in gaps
-	akBool                  // two constants
-	akNil                   // nil / non-nil
-	akRel                   // relation-valued (loop / assumed comparator): weak order only
-	akPresence              // presence of the generic position per individual
+	akOrder    atomKind = iota // int/string term: positions on the pool line + ranks in gaps
+	akBool                     // two constants
+	akNil                      // nil / non-nil
+	akRel                      // relation-valued (loop / assumed comparator): weak order only
+	akPresence                 // presence of the generic position per individual
 )
 
 // world: abstract values assigned so far. Atoms are fine-grained and demanded lazily:
-//   pos["key|p"]   position of individual p on the pool line of term key
-//                   (akOrder: 2*i+1 = pool constant i, 2*i = gap i; akBool: 0/1; akNil: 0 nil,
-//                   1 non-nil; akPresence: 0 absent, 1 present)
-//   rel["key|p|q"] (p<q) order of p and q when they share a gap, or on a relation atom (akRel)
+//
+//	pos["key|p"]   position of individual p on the pool line of term key
+//	                (akOrder: 2*i+1 = pool constant i, 2*i = gap i; akBool: 0/1; akNil: 0 nil,
+//	                1 non-nil; akPresence: 0 absent, 1 present)
+//	rel["key|p|q"] (p<q) order of p and q when they share a gap, or on a relation atom (akRel)
 type world struct {
 	n     int
 	pos   map[string]int
